@@ -29,25 +29,15 @@ Print Assumptions C18_age_flush_block.
 (* When no call is in flight, every write a crash would lose was issued at most 10 s
    after the last commit: the data at risk is bounded in age relative to the last flush
    (C06_bounded_loss bounds its count).  [pending_stamped] are the issued writes beyond
-   the committed prefix, each with its issue instant.  PARTIAL: for histories in which no
-   bulk insert failed after its first row ([Forall counted h]). *)
-Theorem C18_age_bound_partial : forall lazy c0 t0 h tr t,
-  Forall counted h -> map fst tr = expand_all h -> mono_from t tr ->
+   the committed prefix, each with its issue instant.  Calls that raise are included (the rows of
+   a bulk insert that failed part-way pass the age test in its finally clause). *)
+Theorem C18_age_bound : forall lazy c0 t0 h tr t,
+  map fst tr = expand_all h -> mono_from t tr ->
   let s := run lazy (init c0 t0) tr in
   map fst (pending_stamped c0 tr s) = pending s /\
   forall w ti, In (w, ti) (pending_stamped c0 tr s) -> ti - last_commit s <= MAX_AGE.
 Proof. exact age_bound. Qed.
-Print Assumptions C18_age_bound_partial.
-
-(* FINDING (same defect as C06_bounded_loss_refuted).  Without [Forall counted h]: the rows
-   of a bulk insert that raised part-way are pending without ever having passed the age
-   test; issued 100 s after the last commit, they are still at risk when the call returns. *)
-Theorem C18_age_bound_refuted :
-  exists h tr t, map fst tr = expand_all h /\ mono_from t tr /\
-    let s := run true (init [] 0) tr in
-    exists w ti, In (w, ti) (pending_stamped [] tr s) /\ ti - last_commit s > MAX_AGE.
-Proof. exact age_bound_refuted. Qed.
-Print Assumptions C18_age_bound_refuted.
+Print Assumptions C18_age_bound.
 
 (* Non-vacuity: a trickle of one insert every 4 s (far below the count threshold).  The
    writes at 4 s and 8 s stay pending, the one at 12 s (12 s after the flush at 0) flushes
@@ -72,3 +62,13 @@ Example C18_reversed_operands_never_flush :
   let reversed_age_test (now last : Z) := last - now >? MAX_AGE in
   reversed_age_test 30000000 0 = false /\ (30000000 - 0 >? MAX_AGE) = true.
 Proof. vm_compute. split; reflexivity. Qed.
+
+(* Sensitivity: with the script insert_many had before ec39c3d (no conditional_commit on the
+   failing path) rows issued 100 s after the last commit are pending when the call returns. *)
+Example C18_pre_fix_failed_bulk_breaks_age_bound :
+  let tr := map (fun m => (m, mkClk 100000000 100000000 100000000))
+                (pre_ec39c3d_insert_many_failed [] [7; 8]) in
+  let s := run true (init [] 0) tr in
+  mono_from 0 tr /\
+  exists w ti, In (w, ti) (pending_stamped [] tr s) /\ ti - last_commit s > MAX_AGE.
+Proof. exact pre_fix_failed_bulk_breaks_age_bound. Qed.
